@@ -232,6 +232,12 @@ func (e *Environment) makeRef(name string) (*Reference, bool) {
 		}
 		ref := Reference{Name: name, RefEnv: e.outer}
 		if r, isRef := obj.(Reference); isRef {
+			if r.ObjValue() == nil {
+				// Stale: what it pointed to was deleted since (del() called further down the stack), keep looking.
+				delete(e.outer.store, name)
+				e = e.outer
+				continue
+			}
 			log.Debugf("makeRef(%s) found ref %s in %d", name, r.Name, r.RefEnv.depth)
 			ref = r // set and return the original ref instead of ref of ref.
 		}
@@ -260,6 +266,11 @@ func (e *Environment) Get(name string) (Object, bool) {
 		return *e.function, true
 	}
 	obj, ok := e.store[name]
+	if r, isRef := obj.(Reference); ok && isRef && r.ObjValue() == nil {
+		// What the reference pointed to was deleted (del() called further down the stack): look the name up again.
+		delete(e.store, name)
+		ok = false
+	}
 	if ok {
 		// using references to non constant (extensions are constants) implies uncacheable.
 		if r, ok := obj.(Reference); ok && !cacheSafe(r.Name, r.ObjValue(), r.RefEnv) {
